@@ -29,7 +29,7 @@ type vfrag struct {
 func c01Values(tier string) []vfrag {
 	q := []vfrag{
 		{"absent", ""}, {"int", "1"}, {"str", `"x"`}, {"null", "null"}, {"bool", "true"}, {"float", "2.5"},
-		{"numstr", `"1"`}, {"neg", "-9007199254740993"}, {"text", `"X y"`}, // negative and beyond 2^53: must survive the conversion of a mixed column to text exactly
+		{"numstr", `"1"`}, {"neg", "-9007199254740993"}, {"text", `"X \"y@@I"`}, // negative and beyond 2^53: must survive the conversion of a mixed column to text exactly
 	}
 	if tier != "thorough" {
 		return q
@@ -90,7 +90,9 @@ var c01TS = []int64{0, 1, 1000, 70_000, 1 << 32}
 func c01Event(k int, ts int64, members string) string {
 	s := fmt.Sprintf(`{"timestamp":%d,"id":"e%d"`, ts, k)
 	if members != "" {
-		s += "," + members
+		// @@I: the event's number, so that a value kind can differ from event to event (escaped strings must not be
+		// byte-identical in two events of one request)
+		s += "," + strings.ReplaceAll(members, "@@I", fmt.Sprint(k))
 	}
 	return s + "}"
 }
@@ -253,17 +255,34 @@ func c01Run(w *kernel.Worker, j *c01Job, rep *kernel.Report) (*c01Result, error)
 		return asDied(err)
 	}
 	flushed := 0
+	var pending []string
+	hsum := 0
+	for _, ev := range j.Events {
+		for _, c := range []byte(ev) {
+			hsum += int(c)
+		}
+	}
+	oneRequestPerFlush := (hsum+len(j.Bounds))%2 == 0
+	if oneRequestPerFlush {
+		rep.Add("histories_with_one_request_per_flush", 1)
+	}
 	for i, ev := range j.Events {
 		me, err := Flatten(ev, "timestamp")
 		if err != nil {
 			return nil, fmt.Errorf("model flatten %q: %v", ev, err)
 		}
 		model = append(model, me)
-		if err := ingestStep(w, 0, idx, []string{ev}); err != nil {
-			return asDied(err)
+		// requests: in every second history the events between two flushes travel in one bulk request, in the others
+		// each event is a request of its own
+		b := j.Bounds[i]
+		pending = append(pending, ev)
+		if !oneRequestPerFlush || b != 0 || i == len(j.Events)-1 {
+			if err := ingestStep(w, 0, idx, pending); err != nil {
+				return asDied(err)
+			}
+			pending = nil
 		}
 		rep.Transition(1)
-		b := j.Bounds[i]
 		if b == 0 {
 			continue
 		}
